@@ -245,13 +245,14 @@ def replay(ctx, obj):
         return 1
     c = obj["case"]
     er = VG.run_engine(c)
+    raw = (dict(er["datasets"]["DS_r"]) if er["ok"] else (er["err"], er["msg"]))
     notes = VG.normalise(c, er)
     mi = VG.eval_model([c], "c07_replay", impl=True)[0]
     ms = VG.eval_model([c], "c07_replay_s", impl=False)[0]
     dis, dis_s = VG.compare(er, mi), VG.compare(er, ms)
     print("script:\n" + VG.script_of(c))
     print("inputs:", json.dumps({n: d["rows"] for n, d in c["ds"].items()}))
-    print("engine:", er["datasets"]["DS_r"] if er["ok"] else (er["err"], er["msg"]))
+    print("engine:", raw)
     print("model (engine-faithful):", VG.model_rows(mi))
     print("model (manual)         :", VG.model_rows(ms))
     preds = VG.predicates(c, er)
